@@ -13,7 +13,7 @@
 From Coq Require Import List NArith ZArith.
 From GrolGen Require Import Gen_AutoSave.
 From GrolModel Require Import AutoSave.
-From GrolProofs Require Import AutoSave_proofs.
+From GrolProofs Require Import AutoSave_proofs AutoSave_history.
 Import ListNotations.
 
 Section C18.
@@ -91,7 +91,65 @@ Proof.
   vm_compute. repeat split.
 Qed.
 
+Section C18_histories.
+  (* the same assumptions about the operating system as in Section C18 *)
+  Variable ce : fname -> step -> nat -> st -> st.
+  Hypothesis write_leaves_prefix :
+    forall tmp b j m, ce tmp (StWrite b) j m = exec_or_skip tmp (StWrite (firstn j b)) m.
+  Hypothesis other_calls_atomic :
+    forall tmp s j m, (forall b, s <> StWrite b) -> ce tmp s j m = m \/ ce tmp s j m = exec_or_skip tmp s m.
+
+  (* Histories ("a failed or interrupted save never damages the previous file", over any number of saves in the
+     same directory).  h is any list of saves - each with the temporary name CreateTemp gives it, its bindings, an
+     injected fault or none, a crash point or none -, run one after the other on the directory the previous ones
+     left behind, temporary files of aborted saves included; fresh_history is CreateTemp's contract at each save
+     (a name of the pattern that does not exist at that moment).  Then:
+       - if no save died inside its rename, the state file is exactly what the LAST save that completed wrote
+         (last_committed), or the original file if none completed: nothing of an aborted save, no residue of a
+         stale temporary file, ever shows in it - also when the later state is shorter than what an aborted save
+         had already written;
+       - in every case the state file is the original one or, whole, what one save of the history that suffered no
+         failing call and reached its rename wrote;
+       - no file other than the state file and the temporary files of these saves changes. *)
+  Theorem history_atomic : forall (h : list save) (fs0 : fs),
+    fresh_history ce autosave_skeleton fs0 h ->
+    let fs' := run_history ce autosave_skeleton fs0 h in
+    (forallb (fun s => negb (in_rename s)) h = true ->
+       fs_get fs' autosave_state_file = last_committed (fs_get fs0 autosave_state_file) h) /\
+    (fs_get fs' autosave_state_file = fs_get fs0 autosave_state_file \/
+     exists s, In s h /\ fault_in_range s = false /\ List.length (sv_bs s) + 1 <= sv_k s /\
+               fs_get fs' autosave_state_file = Some (List.concat (sv_bs s))) /\
+    (forall n, n <> autosave_state_file -> (forall s, In s h -> n <> sv_tmp s) -> fs_get fs' n = fs_get fs0 n).
+  Proof. exact (history_gen ce write_leaves_prefix other_calls_atomic). Qed.
+
+  (* One save, EVERY fault position (no side condition on the index: a position beyond the calls of the save is no
+     fault) combined with EVERY crash point: the state file is the previous or the new version, and no file other
+     than it and the temporary file changes. *)
+  Theorem any_fault_any_crash : forall (tmp : fname) (fs0 : fs),
+    temp_name_ok autosave_temp_pattern tmp -> fs_get fs0 tmp = None ->
+    forall (bs : list bytes) (f : fault) (k torn : nat),
+    let fs' := after ce tmp autosave_skeleton bs f k torn fs0 in
+    (fs_get fs' autosave_state_file = fs_get fs0 autosave_state_file \/
+     fs_get fs' autosave_state_file = Some (List.concat bs)) /\
+    (forall n, n <> tmp -> n <> autosave_state_file -> fs_get fs' n = fs_get fs0 n).
+  Proof. exact (any_fault_any_crash_gen ce write_leaves_prefix other_calls_atomic). Qed.
+End C18_histories.
+
+(* non-vacuity for histories: a history satisfying fresh_history whose second save (a state SHORTER than what the
+   first, interrupted save had already written) completes and whose third save fails: the state file is exactly the
+   second save's contents, the residues stay in their own temporary files *)
+Example C18_history_example :
+  fresh_history torn_step autosave_skeleton ex_fs0 ex_history /\
+  forallb (fun s => negb (in_rename s)) ex_history = true /\
+  let fs' := run_history torn_step autosave_skeleton ex_fs0 ex_history in
+  fs_get fs' autosave_state_file = Some [5]%N /\
+  last_committed (fs_get ex_fs0 autosave_state_file) ex_history = Some [5]%N /\
+  fs_get fs' tmpx = Some [2]%N /\ fs_get fs' tmpy = None /\ fs_get fs' tmpz = Some [6; 6]%N.
+Proof. split; [exact ex_history_fresh|]. split; [reflexivity|]. exact ex_history_outcome. Qed.
+
 Print Assumptions crash_atomic.
 Print Assumptions fault_keeps_old.
 Print Assumptions temp_never_state_file.
 Print Assumptions skip_when_unchanged.
+Print Assumptions history_atomic.
+Print Assumptions any_fault_any_crash.
